@@ -74,9 +74,27 @@ var privateTypes = []reflect.Type{
 	reflect.TypeOf(P4{}), reflect.TypeOf(P5{}), reflect.TypeOf(P6{}), reflect.TypeOf(P7{}),
 }
 
+// privCodec is distinguishable from the default mapping of struct{V int64}:
+// it stores V xor a mask, so a lost or ignored registration shows in the bytes.
 type privCodec struct{ avro.Int64Codec }
 
+const privMask = 0x5a5a
+
 func (privCodec) Omit(p unsafe.Pointer) bool { return false }
+
+func (c privCodec) Write(w *avro.WriteBuf, p unsafe.Pointer) {
+	v := *(*int64)(p) ^ privMask
+	c.Int64Codec.Write(w, unsafe.Pointer(&v))
+}
+
+func (c privCodec) Read(r *avro.ReadBuf, p unsafe.Pointer) error {
+	var v int64
+	if err := c.Int64Codec.Read(r, unsafe.Pointer(&v)); err != nil {
+		return err
+	}
+	*(*int64)(p) = v ^ privMask
+	return nil
+}
 
 // fixtures: built once, sequentially
 type c12Fixture struct {
@@ -285,9 +303,13 @@ func c12Run(g int, op c12Op, banks chan *avro.ResourceBank) error {
 		v.Elem().Field(0).Field(0).SetInt(int64(g) + 100)
 		wb := avro.NewWriteBuf(nil)
 		c.Write(wb, v.UnsafePointer())
-		want := append(ref.AppendLong(nil, int64(g)+100), 0)
+		want := append(ref.AppendLong(nil, (int64(g)+100)^privMask), 0)
 		if !bytes.Equal(wb.Bytes(), want) {
-			return fmt.Errorf("private type encoded as % x, want % x", wb.Bytes(), want)
+			return fmt.Errorf("goroutine-private registered type encoded as % x, its registered codec writes % x (registration lost or ignored)", wb.Bytes(), want)
+		}
+		back := reflect.New(holder)
+		if err := c.Read(avro.NewReadBuf(wb.Bytes()), back.UnsafePointer()); err != nil || back.Elem().Field(0).Field(0).Int() != int64(g)+100 {
+			return fmt.Errorf("goroutine-private registered type read back as %d (err %v)", back.Elem().Field(0).Field(0).Int(), err)
 		}
 	case "decode":
 		out := reflect.New(f.typ)
